@@ -407,7 +407,7 @@ func cmdCheck(args []string) {
 		vb, _ := json.MarshalIndent(map[string]any{"property": spec.ID, "spec": *specPath, "tier": *tier, "violation": v}, "", " ")
 		rp := filepath.Join(dir, "counterexample.json")
 		os.WriteFile(rp, vb, 0o644)
-		replayed++
+		_ = replayed
 		fmt.Printf("  counterexample: entry=%s kind=%s label=%q where=%s\n", v.Entry, v.Kind, v.Label, v.Where)
 		if len(v.Inputs) > 0 && len(v.Inputs) <= 64 {
 			var parts []string
@@ -454,7 +454,7 @@ func cmdCheck(args []string) {
 	cov := map[string]any{
 		"states":                        states,
 		"transitions":                   trans,
-		"traces_validated_against_impl": replayed,
+		"traces_validated_against_impl": 0, // no native replay: counterexamples are re-executed symbolically by `symgo replay`
 		"samples":                       samples,
 		"explanation": "bounded symbolic model checking of the real code: states = completed symbolic paths (each covers all input values satisfying its path condition), " +
 			"transitions = decisions taken (branches, concretisations, scheduling choices); every assertion on every path is decided by an SMT query (unsat = holds for all values on that path)",
@@ -497,3 +497,80 @@ func cmdCheck(args []string) {
 }
 
 func cmdSSAFacts(args []string) {}
+
+// cmdReplay re-executes the recorded decision path of a counterexample against the *current* /repo
+// tree (fresh go/ssa, same harness) and reports whether the same violation is reached again.
+func cmdReplay(args []string) {
+	fs := flag.NewFlagSet("replay", flag.ExitOnError)
+	specPath := fs.String("spec", "", "check spec (json)")
+	cexPath := fs.String("cex", "", "counterexample.json written by check")
+	repo := fs.String("repo", "/repo", "repository root")
+	verifDir := fs.String("verif", "/verif", "verif root")
+	fs.Parse(args)
+	var spec CheckSpec
+	b, err := os.ReadFile(*specPath)
+	if err != nil || json.Unmarshal(b, &spec) != nil {
+		fmt.Println("cannot read spec")
+		os.Exit(2)
+	}
+	var cex struct {
+		Violation Violation `json:"violation"`
+	}
+	b, err = os.ReadFile(*cexPath)
+	if err != nil || json.Unmarshal(b, &cex) != nil {
+		fmt.Println("cannot read counterexample")
+		os.Exit(2)
+	}
+	v := cex.Violation
+	for _, ps := range spec.Packages {
+		var found *EntrySpec
+		for _, l := range [][]EntrySpec{ps.Quick, ps.Thorough, ps.MustFail} {
+			for i := range l {
+				if l[i].Entry == v.Entry {
+					found = &l[i]
+				}
+			}
+		}
+		if found == nil {
+			continue
+		}
+		overlay := map[string][]byte{}
+		pkgName := ""
+		for _, h := range ps.Harness {
+			src, err := os.ReadFile(filepath.Join(*verifDir, "harness", h))
+			if err != nil {
+				fmt.Println("cannot read harness:", err)
+				os.Exit(2)
+			}
+			overlay[filepath.Base(h)] = src
+			pkgName = pkgNameOf(src)
+		}
+		overlay["zz_verif_rt.go"] = []byte(strings.Replace(rtTemplate, "PKGNAME", pkgName, 1))
+		prog, err := LoadOverlay(*repo, ps.Dir, overlay)
+		if err != nil {
+			fmt.Println("INCONCLUSIVE harness does not load:", err)
+			os.Exit(0)
+		}
+		for _, s := range append(append([]string{}, ps.Summarize...), defaultSummaries...) {
+			prog.summarize[s] = true
+		}
+		cfg := &RunConfig{Entry: v.Entry, MaxSteps: 4000000, Workers: 1, TimeoutS: 300, SolverMs: 10000, MapOrderMax: 3, MaxConcretize: 64,
+			Prefix: v.Decisions, MaxPaths: 1, StopOnViolation: true, SchedAll: found.SchedAll, Preempt: found.Preempt,
+			MapOrderAll: found.MapOrder, AllowBlocked: found.AllowBlocked, HashTransparent: found.HashTransparent}
+		res := Explore(prog, cfg)
+		for _, nv := range res.Violations {
+			if nv.Kind == v.Kind && nv.Label == v.Label {
+				fmt.Printf("reproduced on the current tree: entry=%s kind=%s label=%q where=%s\n", nv.Entry, nv.Kind, nv.Label, nv.Where)
+				for _, in := range nv.Inputs {
+					fmt.Printf("  %s=%#x\n", in.Name, in.Value)
+				}
+				fmt.Printf("VIOLATION property=%s replay=%s\n", spec.ID, *cexPath)
+				os.Exit(1)
+			}
+		}
+		fmt.Printf("NOT REPRODUCED on the current tree (entry=%s, recorded path of %d decisions re-executed; %d other violation(s) on that path)\n", v.Entry, len(v.Decisions), len(res.Violations))
+		os.Exit(0)
+	}
+	fmt.Println("entry", v.Entry, "not in spec")
+	os.Exit(2)
+}
